@@ -98,6 +98,22 @@ CHECKS["C12"] = dict(
     technique="CrossHair+z3 solver-partitioned exhaustive history enumeration vs explicit lifecycle model",
     design="§4 C12")
 
+CHECKS["C04"] = dict(
+    text="Solver-partitioned exhaustive exploration of labelled gadget programs through the real parser, interpreter and every rule of "
+         "Analysis.ALL: vocabulary (modules, attribute names) is harvested from /repo's tables and literals on every run, crossed with "
+         "every global-resolving opcode, memo round trips, every call-making opcode incl. a computed callee, nine fates of the call's "
+         "value, protocol headers, surrounding benign data, argument lengths around the 32-character shortening boundary, and pairs of "
+         "gadgets; what a program does is read off the reference VM's event log and the floor is computed from that log. Finite product "
+         "space; the deciding step is the solver's certificate that the partition is exhaustive (Confirmed over all paths).",
+    technique="CrossHair+z3 solver-partitioned exhaustive fan over harvested vocabulary x opcode forms; floor from reference-VM event log",
+    design="§4 C04")
+CHECKS["C19"] = dict(
+    text="Solver-partitioned exhaustive exploration of (module x attribute) over the vocabulary harvested from /repo on every run x "
+         "resolve opcode x called-or-not x second import: whenever the program decompiles, check_safety returns, every finding has a "
+         "Severity and a str message, the report is JSON-serialisable and loader.load's UnsafeFileError.info equals it.",
+    technique="CrossHair+z3 solver-partitioned exhaustive fan over harvested vocabulary; totality oracle on the real analysis",
+    design="§4 C19")
+
 NOT_APPLICABLE = {
     "C16": "every observable sits behind zipfile/zlib/torch C-level I/O; symbolic inputs are realised at the first call so the solver has nothing to decide (DESIGN §5); the pickle-level half is covered by C08",
 }
